@@ -1,1 +1,2 @@
-
+int l2func_4(void){ return 124; }
+void *addr_l2func_4(void){ return (void*)l2func_4; }
